@@ -115,6 +115,8 @@ func ReceiveDirectInvoke(w http.ResponseWriter, r *http.Request, token interop.T
 		}
 	}
 
+	// the response mode is a per-request setting like the limits above: without the header it is the default
+	InvokeResponseMode = interop.InvokeResponseModeBuffered
 	if valueFromHeader := r.Header.Get(InvokeResponseModeHeader); valueFromHeader != "" {
 		invokeResponseMode, err := convertToInvokeResponseMode(valueFromHeader)
 		if err != nil {
